@@ -178,6 +178,24 @@ def iter_dump(path):
             yield parse_state_block(''.join(buf))
 
 
+def _parse_chunk(blocks):
+    return [parse_state_block(b) for b in blocks]
+
+
+def iter_dump_parallel(path, nproc=None, chunk=500):
+    """Same as iter_dump but parses with a process pool (order preserved)."""
+    import multiprocessing as mp
+    txt = open(path).read()
+    blocks = re.split(r'^State \d+:.*\n', txt, flags=re.M)[1:]
+    del txt
+    chunks = [blocks[i:i + chunk] for i in range(0, len(blocks), chunk)]
+    ctx = mp.get_context('fork')
+    with ctx.Pool(nproc or min(16, os.cpu_count() or 1)) as pool:
+        for part in pool.imap(_parse_chunk, chunks):
+            for st in part:
+                yield st
+
+
 _SIM_STATE = re.compile(r'^STATE_\d+ ==\s*$', re.M)
 
 
@@ -221,7 +239,9 @@ class TLCResult(object):
         self.error_trace = []
         self.cmd = ''
 
-    def dump_states(self):
+    def dump_states(self, parallel=True):
+        if parallel and os.path.getsize(self.dump_path) > 2000000:
+            return iter_dump_parallel(self.dump_path)
         return iter_dump(self.dump_path)
 
     def sim_behaviours(self):
